@@ -18,6 +18,6 @@ for _m in pkgutil.iter_modules(__path__):
         LEVEL_TEXT[_m.name] = mod.TEXT
 
 # hook commits in /repo (build tag `verif`)
-HOOK_COMMITS = []
+HOOK_COMMITS = ["635e10c"]
 # properties that are not claimed, with the reason
 NOT_APPLICABLE = {}
